@@ -16,6 +16,7 @@ import traceback
 import zipfile
 
 REPO_ROOT = os.environ.get('VERIF_REPO', '/repo')
+CENSUS_TIME_LIMIT = 90.0     # seconds of real time for one traced census pass
 
 
 def _import_propka():
@@ -541,9 +542,27 @@ class Executor:
                 refserver.write_blob(cpath, data)
             finally:
                 os._exit(0)
-        os.waitpid(pid, 0)
+        # real-time limit for the (traced, hence slower) census pass; the time
+        # module is simulated in this process, so real time is read from
+        # os.times() and real waiting is done with select()
+        import select
+        t0 = os.times().elapsed
+        timed_out = False
+        while True:
+            done, _st = os.waitpid(pid, os.WNOHANG)
+            if done:
+                break
+            if os.times().elapsed - t0 > CENSUS_TIME_LIMIT:
+                try:
+                    os.kill(pid, 9)
+                except OSError:
+                    pass
+                os.waitpid(pid, 0)
+                timed_out = True
+                break
+            select.select([], [], [], 0.01 if os.times().elapsed - t0 < 1 else 0.2)
         try:
-            buf = refserver.read_blob(cpath)
+            buf = b'' if timed_out else refserver.read_blob(cpath)
         except OSError:
             buf = b''
         for n in sorted(os.listdir(self.cwd)):
@@ -556,6 +575,9 @@ class Executor:
                         fh.write(saved[n])
         # input files/dirs the child created are harmless duplicates
         self.stats['census_runs'] += 1
+        if timed_out:
+            self.stats['census_timeouts'] = self.stats.get('census_timeouts', 0) + 1
+            return None
         if not buf:
             raise RuntimeError('census child produced nothing')
         return json.loads(buf.decode())
@@ -574,8 +596,10 @@ class Executor:
             if key not in self.census_cache:
                 self.census_cache[key] = self.census(call, track_state=True)
                 self.stats['state_windows'] = self.stats.get('state_windows', 0) + len(
-                    self.census_cache[key].get('windows', []))
+                    (self.census_cache[key] or {}).get('windows', []))
             cen = self.census_cache[key]
+            if cen is None:
+                return None
             wins = [w for w in cen.get('windows', []) if w[1] > w[0]]
             if wins and fault.get('u_win', 1.0) < 0.7:
                 # aim into in-flight state: an interval during which process-
@@ -586,6 +610,8 @@ class Executor:
                 return {'kind': 'crash', 'target': None, 'target_global': n}
         else:
             cen = self.census(call)
+            if cen is None:
+                return None
         if kind == 'crash':
             funcs = [f for f in cen['funcs'] if f[2] > 0]
             if not funcs:
@@ -630,12 +656,14 @@ class Executor:
         call = step['call']
         fault = step.get('fault')
         armed = None
-        if fault is not None:
+        # the reference first: if it gives up (too slow), neither the census
+        # pass nor the call itself is run
+        exp = self.expected(call)
+        if not exp.get('slow') and fault is not None:
             if fault['kind'] == 'seek-fail':
                 call = dict(call)
                 call['stream_kind'] = 'unseekable'
             armed = self.arm_fault(fault, call)
-        exp = self.expected(call)
         if exp.get('slow'):
             # the reference gave up (see refserver.REF_TIME_LIMIT): the call
             # would take as long here; it is skipped, not compared
